@@ -18,6 +18,8 @@ ParaLink == <<R, <<"a", <<R>>>>>>
 Tbl22 == <<"tbl", << << <<Para1>>, <<Para1>> >>, << <<Para1>>, <<Para1>> >> >>>>
 TblMulti == <<"tbl", << << <<Para1, Para1>>, <<Para1>> >> >>>>          \* 1 x 2, first cell two paragraphs
 TblEmptyCell == <<"tbl", << << <<Para1>>, <<>> >>, << <<>>, <<Para1>> >> >>>>
+\* a row whose middle cell is empty (a writer may render it as the covered cell of a horizontal merge)
+TblSpan == <<"tbl", << << <<Para1>>, <<>>, <<Para1>> >>, << <<Para1>>, <<Para1>>, <<Para1>> >> >>>>
 ShapeLists ==
     { <<>>,
       << <<"title", Para1>> >>,
@@ -27,6 +29,7 @@ ShapeLists ==
       << <<"title", Para1>>, Tbl22 >>,
       << TblMulti, <<"text", <<Para1>>>> >>,
       << TblEmptyCell >>,
+      << TblSpan >>,
       << <<"text", <<Para1>>>>, <<"text", <<Para1>>>> >> }
 Slides == { [shapes |-> s, notes |-> n] : s \in ShapeLists, n \in { <<>>, <<R>> } }
 
